@@ -124,3 +124,5 @@ package dependency
 //@   loop 1 trace_step tag != "" && got.1 == nil && got.0 == nil : ^$
 //@   loop 2 trace_step injerr == nil : ^INJ $
 //@   loop 2 trace_step injerr != nil : ^$
+// a failed optional resolution never ends the walk
+//@   trace_ensures result != nil && got.1 != nil && hasprefix(tag, "?") : !GET $
